@@ -173,7 +173,7 @@ pub fn campaign(ctx: &Ctx, runs_total: u64) {
             .arg(format!("-seed={}", (mix(ctx.seed, target, w) % 0xffff_fffe) + 1))
             // fixed work (-runs) with a wall-clock safety cap; reaching the cap only shortens the
             // campaign (the evidence reports the executions actually done), it is never a verdict
-            .args(["-max_len=1200", "-len_control=0", "-timeout=30", "-rss_limit_mb=6000", "-print_final_stats=1", "-max_total_time=300"])
+            .args(["-max_len=1200", "-len_control=0", "-timeout=120", "-rss_limit_mb=6000", "-print_final_stats=1", "-max_total_time=300"])
             .arg(format!("-artifact_prefix={}/", work.join("artifacts").display()))
             .env("ACPIV_FUZZ_PROP", &ctx.prop)
             .env("ACPIV_ROOT", &root)
@@ -215,12 +215,16 @@ pub fn campaign(ctx: &Ctx, runs_total: u64) {
                 continue;
             }
             if name.starts_with("timeout-") || name.starts_with("oom-") {
-                ctx.report("fuzz", serde_json::json!({}), vec![Violation::new(&ctx.prop, "harness", "harness-panic", format!("libFuzzer {} artifact (inconclusive)", name.split('-').next().unwrap_or("")), String::new())]);
+                // a unit that is slow or large under ASan: inconclusive for Engine C only (the
+                // deciding engines are A and B); recorded, never a verdict
+                ctx.add_engine(&format!("libfuzzer:{}:{}-units", target, name.split('-').next().unwrap_or("")), 1);
+                ctx.note(format!("libFuzzer reported a {} unit under ASan (inconclusive, not a verdict)", name.split('-').next().unwrap_or("")));
                 continue;
             }
             let (vs, case) = run(&ctx.prop, &bytes);
             if vs.is_empty() {
-                ctx.report("fuzz", serde_json::json!({}), vec![Violation::new(&ctx.prop, "harness", "harness-panic", "libFuzzer artifact does not reproduce in the plain harness".into(), name)]);
+                ctx.add_engine(&format!("libfuzzer:{}:non-reproducing-artifacts", target), 1);
+                ctx.note(format!("libFuzzer artifact {} does not reproduce through the plain oracle (inconclusive, not a verdict)", name));
             } else {
                 let hex: String = bytes.iter().map(|b| format!("{:02x}", b)).collect();
                 ctx.report(&format!("fuzz:{}", target), serde_json::json!({"bytes": hex, "case": case}), vs);
